@@ -65,6 +65,18 @@ def param(kind, path):
     if path == "fmut": return "b: &'%s" % box, "b.%s[i]" % fld
     raise ValueError(path)
 
+def fused_pairs(p):
+    """positions n where ops[n] = append v and ops[n+1] = a direct read with a literal index are written as one expression
+    (every second eligible pair, chosen by a hash of the history so that rendering is reproducible)"""
+    import zlib
+    out = set()
+    ops = p["ops"]
+    for n in range(len(ops) - 1):
+        if ops[n][0] == "app" and ops[n + 1][0] == "get" and ipath(ops[n + 1][1]) == "direct" and ops[n + 1][1][0] != "opq" \
+           and (n - 1) not in out and zlib.crc32(repr(ops[:n + 2]).encode()) % 2 == 0:
+            out.add(n)
+    return out
+
 def render(p):
     used = sorted({o[1][1] for o in idx_ops(p) if o[1][0] == "opq"}, key=ITY.index)
     L = ['import "std/io";', ""]
@@ -91,6 +103,9 @@ def render(p):
             L += ["fn as_%s_%s(%s, i: %s, v: i32) {" % (path, t, decl, t), "    %s = v;" % acc, "}", ""]
         else:
             L += ["fn sg_%s_%s(%s, i: %s) -> i32 {" % (path, t, decl, t), "    let c: i32 = %s as i32;" % acc, "    return c;", "}", ""]
+    fused = fused_pairs(p)
+    for t in sorted({p["ops"][n + 1][1][1] for n in fused}, key=ITY.index):
+        L += ["fn push_at_%s(xs: &'[]i32, v: i32, i: %s) -> %s {" % (t, t, t), "    append(xs, v);", "    return i;", "}", ""]
     L.append("fn main() {")
     L.append('    let s: str = "%s";' % p["str"])
     if p["init"]:
@@ -99,6 +114,14 @@ def render(p):
         L.append("    let a: []i32 = [];")
     for n, o in enumerate(p["ops"]):
         pre = []
+        if n in fused:
+            # `append(&'a, v); print(a[i])` written as ONE expression: the index expression appends to the array it indexes, so
+            # the length the access is checked against is the one after the append (seed C08e: length read before the index ran)
+            i = p["ops"][n + 1][1]
+            L.append("    io::Println(a[push_at_%s(&'a, %d, %d)]);" % (i[1], o[1], i[2]))
+            continue
+        if n - 1 in fused:
+            continue
         if o[0] == "lit":
             L.append("    a = [%s];" % ", ".join(str(v) for v in o[1]))
         elif o[0] == "app":
@@ -486,6 +509,7 @@ def dynamic_stream(run, work, progs, target, tag):
     cases = []; flagged = set()
     for k, (p, ob) in enumerate(zip(progs, obs)):
         sout, span = py_spec(p)
+        run.count("fused-append-index-expression", len(fused_pairs(p)))
         run.case((target, render(p)), nontrivial=True,
                  sample={"program": render(p), "target": target, "stdout": ob["lines"], "panic": ob["panic"], "accepted": ob["acc"]} if k < 2 else None)
         run.count("%s:%s" % (target, "rejected" if not ob["acc"] else ("panic" if ob["panic"] else "exit0")))
